@@ -187,8 +187,37 @@ def record_and_validate(chk, n, rng):
     return accepted
 
 
+def flush_coverage(chk, trials, rng):
+    import subprocess
+    binary = vlib.build_harness()
+    p = subprocess.run([binary, "wflush", "-trials", str(trials), "-seed", str(rng.randrange(1 << 30))], capture_output=True, text=True, timeout=1200)
+    if p.returncode != 0:
+        chk.infra.append("wflush failed: rc=%d %s" % (p.returncode, p.stderr[-400:]))
+        return
+    res = json.loads(p.stdout)
+    for e in (res.get("errors") or [])[:3]:
+        chk.infra.append("wflush: " + e)
+    chk.cov["flush_coverage_trials"] = res.get("trials", 0)
+    chk.cov["flush_coverage_records"] = res.get("records", 0)
+    chk.cov["evaluations"] += res.get("trials", 0)
+    fails = res.get("failures") or []
+    if fails:
+        f = fails[0]
+        chk.violation("Prop_FlushCovers does not hold on the real LazyAOFWriter (%d of %d trials): %s (maxBufferSize=%d)" % (
+            len(fails), res.get("trials", 0), f["detail"], f["max_buffer_size"]),
+            {"property": PROP, "checker": "wflush", "failures": fails[:10]})
+
+
 def replay_file(path):
     rec = json.load(open(path))
+    if rec.get("checker") == "wflush":
+        chk = Check(PROP, "quick")
+        flush_coverage(chk, 200, random.Random(vlib.seed()))
+        if chk.violations:
+            print("VIOLATION property=%s replay=%s" % (PROP, path))
+            return vlib.EXIT_VIOLATION
+        print("replay: Flush/Sync/Begin cover every earlier write on the current tree (200 trials)")
+        return vlib.EXIT_OK
     if rec.get("checker") == "wtrace" and rec.get("events"):
         # a recorded trace: re-validate the stored events against the current Trace_Writer.tla
         d = vlib.scratch("wtrace-replay-")
@@ -256,6 +285,9 @@ def run(tier):
     chk.cov["forced_steps"] = forced
     # 3. backward conformance: traces of unforced concurrent load validated by TLC
     record_and_validate(chk, 10 if quick else 150, rng)
+    # 4. Prop_FlushCovers / the full drain of W_FlushQ and A_BeginQ on the real LazyAOFWriter at a scale where its
+    #    size limits matter (maxBufferSize 1..3, bursts beyond it queued while the writer goroutine is parked)
+    flush_coverage(chk, 80 if quick else 1500, rng)
     chk.assumptions += [
         "steps internal to the lazy writer goroutine (Recv, Tick) are not forced; the real scheduler places them",
         "each client owns one KV key; versions are the values written",
